@@ -20,7 +20,7 @@ class Opts(object):
         self.allow_unclosed = True
         self.strings = True
         self.marker_under_ops = True
-        self.plain_bitmap_list = False  # 031031 written N times without a replication
+        self.plain_bitmap_list = True   # 031031 written N times without a replication
         self.__dict__.update(kw)
 
 
@@ -387,9 +387,15 @@ def g_bitmap(ch, pool, ctx, opts, depth):
             if reuse:
                 blk.append(236000)
             style = None
-            if not opts.plain_bitmap_list:
+            if getattr(ctx, 'epoch_delayed', False):
+                style = 'delayed'      # the epoch's length is data: later bitmaps must follow it
+            elif op == 225 or ctx.epoch_len is not None:
+                style = ch.weighted([(1, 'fixed'), (1, 'list' if n <= 4 and opts.plain_bitmap_list else 'fixed')])
+            elif not opts.plain_bitmap_list:
                 style = ch.weighted([(1, 'fixed'), (1, 'delayed')])
             d = _bitmap_def(ch, ctx, n, None, 0, style)
+            if ctx.epoch_len is None:
+                ctx.epoch_delayed = (d[0] == 101000)
             ctx.hint_marks.append(('bitmap_n', n))
             blk.extend(d)
             # bits are data: the value generator draws them; a 'list'/'fixed' bitmap keeps N
@@ -428,6 +434,7 @@ def g_bitmap(ch, pool, ctx, opts, depth):
         if z == 235000:
             out.append(235000)
             ctx.epoch_len = None
+            ctx.epoch_delayed = False
             ctx.stored_bitmap = False
             _reserve(ctx, 1)
         elif z == 237255 and ctx.stored_bitmap:
